@@ -92,7 +92,7 @@ def bounded(tier):
     from metapype.eml.validation_errors import ValidationError as VE
     from metapype.model.node import Node
     rules = load_rules()
-    b = Bounded("every rule x every attribute assignment over {absent, each listed value, one unlisted value} per declared attribute "
+    b = Bounded("every rule x every attribute assignment over {absent, each listed value, one unlisted value, the empty string} per declared attribute "
                 "x {no foreign attribute, one foreign attribute}, run through Rule._validate_attributes in both modes and through "
                 "the introspection queries")
     b.rule = "a case is (rule, assignment); non-trivial = the rule declares an attribute or the assignment has a foreign one"
@@ -102,7 +102,7 @@ def bounded(tier):
         choices = []
         for a in names:
             vals = A[a][1:]
-            choices.append([None] + (list(vals) + ["~unlisted~"] if vals else ["v"]))
+            choices.append([None] + (list(vals) + ["~unlisted~"] if vals else ["v"]) + [""])     # "" : present with an empty value (None: absent)
         if len(names) > 4 and tier == "quick":
             pass
         for combo in itertools.product(*choices) if names else [()]:
